@@ -49,6 +49,15 @@ Lemma draw_obj_ticks : forall I t h w, ticks (draw_obj gstate value req draw I t
 Proof. intros. unfold draw_obj. destruct (nth_error (heap w) h); [|reflexivity]. destruct (draw _ g). reflexivity. Qed.
 
 (* ---------------------------------------------------------------- check_random_state *)
+Lemma seed_from_frame : forall (I : interp) t (w : lworld),
+  srcs (snd (seed_from gstate value req seed I t w)) = srcs w /\ hist (snd (seed_from gstate value req seed I t w)) = hist w /\
+  ticks (snd (seed_from gstate value req seed I t w)) = S (ticks w) /\
+  (failed w = true -> failed (snd (seed_from gstate value req seed I t w)) = true) /\
+  (fst (seed_from gstate value req seed I t w) = None \/ exists h, fst (seed_from gstate value req seed I t w) = Some (GObj h)).
+Proof.
+  intros I t w. unfold seed_from. simpl. destruct (seed_ok (as_seed I t (hist w))); simpl; repeat split; auto; eauto.
+Qed.
+
 Lemma check_random_state_spec : forall w : lworld,
   crs VNone w = (Some GGlobal, w) /\
   (forall s, seed_ok s = true ->
@@ -133,6 +142,7 @@ Proof.
     destruct (IHsk (eval_arg a p c) None a1 E1 w) as (c1 & w1 & k1 & R1 & A1 & T1 & G1).
     exists c, w1, k1. simpl. rewrite R1. repeat split; auto.
     intro g. now rewrite G1.
+  - (* Reseed *) discriminate.
 Qed.
 
 (* the generators logged by the local semantics never include the global one *)
@@ -164,6 +174,8 @@ Proof.
   - discriminate.
   - destruct (runL I sk (eval_arg a p c) None w) as [[c2 w2]|] eqn:E; [|discriminate].
     inversion H; subst. eauto.
+  - inversion H as [H1]. destruct (seed_from_frame I t w) as (S1 & _). rewrite H1 in S1. simpl in S1.
+    unfold noglob. now rewrite S1.
 Qed.
 
 (* ---------------------------------------------------------------- one call *)
@@ -259,6 +271,9 @@ Proof.
     destruct p as [|s|g0|]; simpl; try (destruct (seed_ok s); simpl); (split; [reflexivity|]; split; [reflexivity|]; split; [lia|]; intro g; reflexivity).
   - destruct (IHsk D (eval_arg a p c) None w) as (c1 & w1 & k1 & H1 & S1 & T1 & G1).
     exists c, w1, k1. repeat split; auto. intro g. simpl. now rewrite G1.
+  - destruct (seed_from_frame I t w) as (S1 & H1 & T1 & _).
+    exists (fst (seed_from gstate value req seed I t w)), (snd (seed_from gstate value req seed I t w)), 1.
+    repeat split; auto; try lia. intro g. simpl. destruct (seed_from gstate value req seed I t w). reflexivity.
 Qed.
 
 Theorem call_rng_free : forall (I : interp) sk, draw_free sk = true ->
